@@ -240,7 +240,7 @@ def build_bins():
     env = dict(os.environ, RUSTC_WRAPPER="", CARGO_NET_OFFLINE="true", CARGO_TERM_COLOR="never",
                CARGO_TARGET_DIR=os.path.join(target_dir(), "repobin"))
     env.pop("RUSTFLAGS", None)
-    cmd = ["cargo", "build", "--offline", "--release", "--bin", "server-persistent", "--bin", "redis-server-optimized",
+    cmd = ["cargo", "build", "--offline", "--release", "--bin", "server-persistent", "--bin", "redis-server-optimized", "--bin", "maelstrom-kv-replicated",
            "--manifest-path", os.path.join(repo_path(), "Cargo.toml"),
            "--config", 'profile.release.lto="off"', "--config", "profile.release.codegen-units=16",
            "--config", "profile.release.strip=false"]
